@@ -96,12 +96,12 @@ theorem liq_origin_skips_epoch (c : Cfg) (ts cursor : Int) (k : Nat) (hk : c.max
   have := (mem_consecutive.mp h).2
   omega
 
-/-- the witness with the generated constants: 24 h epochs, RewardTimeLimit and MaxEpochsPerUpdate as in the tree, a
+/-- the witness with the generated constants (epoch duration, RewardTimeLimit and MaxEpochsPerUpdate as in the tree): a
     contract that was never updated, called when 11 epochs are due — the cursor ends at epoch 10, epochs 0…9 are rewarded. -/
 theorem liq_origin_skips_epoch_live :
-    liqOrigin (Cfg.live 0 300) (86400 * 11 + Gen.RewardTimeLimit) (-1) 0 = (10, consecutive (-1) 10) ∧
+    liqOrigin (Cfg.live 0) (Gen.EpochDurationSec * 11 + Gen.RewardTimeLimit) (-1) 0 = (10, consecutive (-1) 10) ∧
       (10 : Int) ∉ consecutive (-1) 10 := by
-  have h := liq_origin_skips_epoch (Cfg.live 0 300) (86400 * 11 + Gen.RewardTimeLimit) (-1) 10 (by decide) (by decide) (by decide)
+  have h := liq_origin_skips_epoch (Cfg.live 0) (Gen.EpochDurationSec * 11 + Gen.RewardTimeLimit) (-1) 10 (by decide) (by decide) (by decide)
   simpa using h
 
 /-! ### T4′ — termination / cost of the loops -/
@@ -463,12 +463,12 @@ example : (collect (credit CState.init "z1a" ⟨5, 7⟩) "z1a").map (·.1) = som
 example : (collect CState.init "z1a").isNone = true := by decide
 
 /-- one Update of a never-updated pillar contract three days and one hour after genesis rewards epochs 0, 1, 2 -/
-example : (update (Cfg.live 0 300) .loop CState.init 300 (86400 * 3 + 3600)).map (fun r => (r.1.cursor, r.1.lastUpdate, r.2))
+example : (update (Cfg.live 0) .loop CState.init 300 (86400 * 3 + 3600)).map (fun r => (r.1.cursor, r.1.lastUpdate, r.2))
     = some (2, 300, [0, 1, 2]) := by
-  have h0 : tooRecent (Cfg.live 0 300) (-1) (86400 * 3 + 3600) = false := by decide
-  have h1 : tooRecent (Cfg.live 0 300) (-1 + 1) (86400 * 3 + 3600) = false := by decide
-  have h2 : tooRecent (Cfg.live 0 300) (-1 + 1 + 1) (86400 * 3 + 3600) = false := by decide
-  have h3 : tooRecent (Cfg.live 0 300) (-1 + 1 + 1 + 1) (86400 * 3 + 3600) = true := by decide
+  have h0 : tooRecent (Cfg.live 0) (-1) (86400 * 3 + 3600) = false := by decide
+  have h1 : tooRecent (Cfg.live 0) (-1 + 1) (86400 * 3 + 3600) = false := by decide
+  have h2 : tooRecent (Cfg.live 0) (-1 + 1 + 1) (86400 * 3 + 3600) = false := by decide
+  have h3 : tooRecent (Cfg.live 0) (-1 + 1 + 1 + 1) (86400 * 3 + 3600) = true := by decide
   unfold update
   simp only [CState.init, advance]
   rw [catchUp_step _ _ _ h0, catchUp_step _ _ _ h1, catchUp_step _ _ _ h2, catchUp_stop _ _ _ h3]
